@@ -348,9 +348,10 @@ def scalarCmp (addr : Nat → Bytes) : Scalar → Scalar → Option Int
 
 /-! ## element memory: 64-bit words; memcpy / memmove with an explicit width -/
 
-/-- sizes in bytes of the plain-struct probe types `P<k>` of the harness -/
-def probeSizes : List Nat := [1, 4, 8, 12, 16, 40, 24]
-def rawSize (k : Nat) : Nat := probeSizes.getD k 0
+/-- the plain-struct probe types of the harness: `P<k>` is `struct { unsigned char b[k]; }`, one for every size k = 1 … 41 -/
+def maxProbe : Nat := 41
+/-- size in bytes of `P<k>` -/
+def rawSize (k : Nat) : Nat := k
 
 /-- one 8-byte word of the memory of a container element -/
 inductive Cell where
@@ -1013,11 +1014,277 @@ def blankOf : Val → Val
 def copyVal (addr : Nat → Bytes) (st : Store) (x : Val) : Except Exc Val :=
   assignVal addr st .heap (blankOf x) x
 
+/-! ## `memswap` (src/Assign.c) as a program: the byte-wise default behind `swap`, also what `Array_Sort_Partition` moves elements with
+
+  The translator extracts the body of `memswap(p0, p1, s)` behind its guard `if (p0 == p1) { return; }` as a list of blocks
+  (CelloGen/Hash.lean: `memswapProg`) — loops over the remaining count `s`, each with straight-line statements that load a
+  temporary, copy between the two objects, store the temporary, advance the two cursors and decrement the count. `runSwapProg`
+  executes such a program on two objects given as lists of bytes (of any type `α`: bytes, or tags saying where a byte came from).
+  An access outside the objects, a count that would wrap below zero and a loop that does not end are the outcome `ub`. -/
+
+open CelloGen.Hash (SwPtr SwStmt SwBlock)
+
+/-- state of `memswap`: the two objects, the cursors into them (byte offsets from `p0` / `p1`), the count, the loop variable,
+    the temporary, and whether the run has left the defined behaviour -/
+structure SwSt (α : Type) where
+  m0 : List α
+  m1 : List α
+  a : Nat
+  b : Nat
+  s : Nat
+  i : Nat
+  t : List α
+  ub : Bool
+
+namespace SwSt
+variable {α : Type}
+
+def mem (σ : SwSt α) : SwPtr → List α
+  | .a => σ.m0
+  | .b => σ.m1
+
+def cur (σ : SwSt α) : SwPtr → Nat
+  | .a => σ.a
+  | .b => σ.b
+
+def setMem (σ : SwSt α) : SwPtr → List α → SwSt α
+  | .a, m => { σ with m0 := m }
+  | .b, m => { σ with m1 := m }
+
+/-- the byte offset a memory statement addresses: the cursor, plus `i * w` for `p[i]` -/
+def off (σ : SwSt α) (p : SwPtr) (idx : Bool) (w : Nat) : Nat := σ.cur p + (if idx then σ.i * w else 0)
+
+end SwSt
+
+/-- the `w` bytes at offset `o` -/
+def window (m : List α) (o w : Nat) : List α := (m.drop o).take w
+
+/-- `m` with the bytes from offset `o` on overwritten by `x` -/
+def splice (m : List α) (o : Nat) (x : List α) : List α := m.take o ++ (x ++ m.drop (o + x.length))
+
+/-- one statement -/
+def runStmt (σ : SwSt α) : SwStmt → SwSt α
+  | .load p idx w =>
+    if σ.off p idx w + w ≤ (σ.mem p).length then { σ with t := window (σ.mem p) (σ.off p idx w) w } else { σ with ub := true }
+  | .move d s idx w =>
+    if σ.off d idx w + w ≤ (σ.mem d).length ∧ σ.off s idx w + w ≤ (σ.mem s).length then
+      σ.setMem d (splice (σ.mem d) (σ.off d idx w) (window (σ.mem s) (σ.off s idx w) w))
+    else { σ with ub := true }
+  | .store p idx w =>
+    if σ.off p idx w + w ≤ (σ.mem p).length ∧ w ≤ σ.t.length then σ.setMem p (splice (σ.mem p) (σ.off p idx w) (σ.t.take w))
+    else { σ with ub := true }
+  | .adv .a k => { σ with a := σ.a + k }
+  | .adv .b k => { σ with b := σ.b + k }
+  | .dec k => if k ≤ σ.s then { σ with s := σ.s - k } else { σ with ub := true }   -- `size_t` would wrap: the loops then run off the objects
+
+/-- the statements of a block body in order -/
+def runBody (σ : SwSt α) : List SwStmt → SwSt α
+  | [] => σ
+  | st :: rest => if σ.ub then σ else runBody (runStmt σ st) rest
+
+/-- `while (s >= k) { body }`; out of fuel with the condition still true = the loop does not end -/
+def loopGe (k : Nat) (body : List SwStmt) : Nat → SwSt α → SwSt α
+  | 0, σ => if σ.ub then σ else if k ≤ σ.s then { σ with ub := true } else σ
+  | f + 1, σ => if σ.ub then σ else if k ≤ σ.s then loopGe k body f (runBody σ body) else σ
+
+/-- `while (s--) { body }`: the count is decremented before the body runs, and once more (wrapping) when the loop is left -/
+def loopDec (body : List SwStmt) : Nat → SwSt α → SwSt α
+  | 0, σ => if σ.ub then σ else if σ.s = 0 then { σ with s := 2 ^ 64 - 1 } else { σ with ub := true }
+  | f + 1, σ =>
+    if σ.ub then σ else if σ.s = 0 then { σ with s := 2 ^ 64 - 1 } else loopDec body f (runBody { σ with s := σ.s - 1 } body)
+
+/-- `for (…; i < s / div; i++) { body }` from the current `i` -/
+def loopFor (div : Nat) (body : List SwStmt) : Nat → SwSt α → SwSt α
+  | 0, σ => if σ.ub then σ else if σ.i < σ.s / div then { σ with ub := true } else σ
+  | f + 1, σ =>
+    if σ.ub then σ else if σ.i < σ.s / div then loopFor div body f { runBody σ body with i := (runBody σ body).i + 1 } else σ
+
+def runBlock (σ : SwSt α) : SwBlock → SwSt α
+  | .forIdx div body => if div = 0 then { σ with ub := true } else { loopFor div body (σ.s + 1) { σ with i := 0 } with i := 0 }
+  | .whileGe k body => loopGe k body (σ.s + 1) σ
+  | .ifGe k body => if k ≤ σ.s then runBody σ body else σ
+  | .whileDec body => loopDec body (σ.s + 1) σ
+
+def runBlocks (σ : SwSt α) : List SwBlock → SwSt α
+  | [] => σ
+  | blk :: rest => if σ.ub then σ else runBlocks (runBlock σ blk) rest
+
+/-- `memswap(p0, p1, s)` given as `prog`, on two different objects `x`, `y` of `s = x.length` bytes: what they hold afterwards;
+    `none` = undefined behaviour -/
+def runSwapProg (prog : List SwBlock) (x y : List α) : Option (List α × List α) :=
+  let σ := runBlocks ⟨x, y, 0, 0, x.length, 0, [], false⟩ prog
+  if σ.ub then none else some (σ.m0, σ.m1)
+
+/-- `memswap` as it is in the source now -/
+def memswapSrc (x y : List α) : Option (List α × List α) := runSwapProg CelloGen.Hash.memswapProg x y
+
+/-! ### which programs exchange: a decidable sufficient shape (`swapProg_exchanges` in CelloProofs/Lemmas/HashSwap.lean) -/
+
+/-- what a block body does when it is an exchange step: `w` bytes at the two cursors (at `p[i]` when `idx`) change sides, the
+    cursors move on `da` / `db` bytes, the count drops by `ds` -/
+structure Exch where
+  w : Nat
+  da : Nat
+  db : Nat
+  ds : Nat
+  idx : Bool
+deriving DecidableEq, Repr
+
+/-- totals of a run of pointer steps and count decrements; `none` when a memory statement occurs -/
+def bookOf : List SwStmt → Option (Nat × Nat × Nat)
+  | [] => some (0, 0, 0)
+  | .adv .a k :: r => (bookOf r).map fun t => (t.1 + k, t.2.1, t.2.2)
+  | .adv .b k :: r => (bookOf r).map fun t => (t.1, t.2.1 + k, t.2.2)
+  | .dec k :: r => (bookOf r).map fun t => (t.1, t.2.1, t.2.2 + k)
+  | _ => none
+
+/-- the leading steps of the cursor into `p` (the `++` of `*a++ = *b;` stands before `*b++ = t;`): their total, and the rest -/
+def splitAdv (p : SwPtr) : List SwStmt → Nat × List SwStmt
+  | .adv q k :: r => if q = p then ((splitAdv p r).1 + k, (splitAdv p r).2) else (0, .adv q k :: r)
+  | r => (0, r)
+
+/-- a body of the shape  load p; copy p ← q; (steps of p's cursor); store q; (steps and decrements)  with one width throughout -/
+def exchBody : List SwStmt → Option Exch
+  | .load p idx w :: .move d s idx' w' :: rest =>
+    match splitAdv p rest with
+    | (k1, .store q idx'' w'' :: bk) =>
+      match bookOf bk with
+      | some (x, y, z) =>
+        if d = p ∧ s = q ∧ p ≠ q ∧ idx' = idx ∧ idx'' = idx ∧ w' = w ∧ w'' = w then
+          some ⟨w, (if p = .a then k1 else 0) + x, (if p = .b then k1 else 0) + y, z, idx⟩
+        else none
+      | none => none
+    | _ => none
+  | _ => none
+
+/-- a block before the last: an exchange step of `w ≥ 1` bytes that moves both cursors and the count by `w`, guarded by
+    `s >= k` with `k ≥ w` -/
+def blockOk : SwBlock → Bool
+  | .whileGe k body | .ifGe k body =>
+    match exchBody body with
+    | some e => e.idx == false && decide (1 ≤ e.w) && decide (e.w ≤ k) && e.da == e.w && e.db == e.w && e.ds == e.w
+    | none => false
+  | _ => false
+
+/-- the last block: a byte loop that runs until nothing is left — `while (s >= 1)` / `while (s--)` over the cursors, or
+    `for (i = 0; i < s; i++)` over `p[i]` -/
+def lastOk : SwBlock → Bool
+  | .whileGe k body => k == 1 && exchBody body == some ⟨1, 1, 1, 1, false⟩
+  | .whileDec body => exchBody body == some ⟨1, 1, 1, 0, false⟩
+  | .forIdx div body => div == 1 && exchBody body == some ⟨1, 0, 0, 0, true⟩
+  | _ => false
+
+/-- blocks of exchange steps of any widths, closed by a byte loop -/
+def swapOk : List SwBlock → Bool
+  | [] => false
+  | [blk] => lastOk blk
+  | blk :: rest => blockOk blk && swapOk rest
+
+/-! ## swap -/
+
+/-- `size(type)` of the struct `swap` exchanges -/
+def structBytes (name : String) : Nat := 8 * ((CelloGen.Hash.structWords.lookup name).getD 0)
+
+def valStructSize : Val → Nat
+  | .sc (.int _) => structBytes "Int"
+  | .sc (.float _) => structBytes "Float"
+  | .sc (.str _) => structBytes "String"
+  | .sc (.typ _) => 0                       -- Type objects are not swapped in this engine
+  | .sc (.ptr false _) => structBytes "Ref"
+  | .sc (.ptr true _) => structBytes "Box"
+  | .sc (.raw k _) => rawSize k
+  | .seq .array _ _ => structBytes "Array"
+  | .seq .list _ _ => structBytes "List"
+  | .tuple _ => structBytes "Tuple"
+  | .table _ _ _ => structBytes "Table"
+  | .tree _ _ _ => structBytes "Tree"
+
+/-- the two values are of one type (`swap` raises TypeError otherwise) -/
+def sameStruct : Val → Val → Bool
+  | .sc x, .sc y => x.ty == y.ty
+  | .seq k _ _, .seq k' _ _ => k == k'
+  | .tuple _, .tuple _ => true
+  | .table _ _ _, .table _ _ _ => true
+  | .tree _ _ _, .tree _ _ _ => true
+  | _, _ => false
+
+/-- the bytes of an `n`-byte struct, each named by the object it belongs to and its position -/
+def tagBytes (side : Bool) (n : Nat) : List (Bool × Nat) := (List.range n).map fun j => (side, j)
+
+/-- `memswap` of the structs of two values of one type. A plain struct is its bytes, and the program runs on them. The struct of
+    any other value (a number, a buffer pointer, the fields of a container) is followed by position: the values change sides
+    when every byte does; `none` = undefined behaviour, or the two structs end up holding a mixture of each other's bytes that is
+    no value of the model (half a pointer) -/
+def swapVals (x y : Val) : Option (Val × Val) :=
+  match x, y with
+  | .sc (.raw k bx), .sc (.raw _ by') => (memswapSrc bx by').map fun r => (.sc (.raw k r.1), .sc (.raw k r.2))
+  | _, _ =>
+    let n := valStructSize x
+    match memswapSrc (tagBytes false n) (tagBytes true n) with
+    | some r => if r.1 = tagBytes true n ∧ r.2 = tagBytes false n then some (y, x) else none
+    | none => none
+
 /-- `swap(a, b)` = `memswap` of the two structs: the objects keep their place (and allocation class), the values change
-    sides -/
-def swapObjs (st : Store) (a b : Nat) : Store :=
+    sides; `swap(a, a)` returns at once (the guard `p0 == p1`); `none` = the outcome of `memswap` is no value of the model -/
+def swapObjs (st : Store) (a b : Nat) : Option Store :=
+  if a = b then some st else
   match st.get a, st.get b with
-  | some oa, some ob => (st.setIfInBounds a (some { oa with val := ob.val })).setIfInBounds b (some { ob with val := oa.val })
-  | _, _ => st
+  | some oa, some ob =>
+    (swapVals oa.val ob.val).map fun r =>
+      (st.setIfInBounds a (some { oa with val := r.1 })).setIfInBounds b (some { ob with val := r.2 })
+  | _, _ => some st
+
+def swapScalars (x y : Scalar) : Option (Scalar × Scalar) :=
+  match swapVals (.sc x) (.sc y) with
+  | some (.sc x', .sc y') => some (x', y')
+  | _ => none
+
+/-! ## sort: the quicksort of src/Array.c (`Array_Sort_Partition` / `Array_Sort_Part` / `Array_Sort_By`), every element move a `swap` -/
+
+/-- `swap(Array_Item(a, i), Array_Item(a, j))`: the same element = the same address, `memswap` returns at once -/
+def swapAt (swp : α → α → Option (α × α)) (arr : Array α) (i j : Nat) : Option (Array α) :=
+  if i = j then some arr
+  else match arr[i]?, arr[j]? with
+    | some x, some y => (swp x y).map fun r => (arr.setIfInBounds i r.1).setIfInBounds j r.2
+    | _, _ => none
+
+/-- the `for (i = l; i < r; i++)` loop of `Array_Sort_Partition`: `n` iterations left -/
+def partLoopW (swp : α → α → Option (α × α)) (f : α → α → Bool) (r : Nat) : Nat → Nat → Array α → Nat → Option (Array α × Nat)
+  | 0, _, a, s => some (a, s)
+  | n + 1, i, a, s =>
+    match a[i]?, a[r]? with
+    | some x, some piv =>
+      if f x piv then (swapAt swp a i s).bind fun a' => partLoopW swp f r n (i + 1) a' (s + 1)
+      else partLoopW swp f r n (i + 1) a s
+    | _, _ => none
+
+/-- `Array_Sort_Partition(a, l, r, f)`: the middle element goes to the right end, Lomuto partition, the pivot to its place `s` -/
+def partitionW (swp : α → α → Option (α × α)) (f : α → α → Bool) (a : Array α) (l r : Nat) : Option (Array α × Nat) :=
+  (swapAt swp a (l + (r - l) / 2) r).bind fun a1 =>
+  (partLoopW swp f r (r - l) l a1 l).bind fun p =>
+  (swapAt swp p.1 p.2 r).map fun a3 => (a3, p.2)
+
+/-- `Array_Sort_Part(a, l, r, f)`; the indices are `int64_t` in C and `r = -1` occurs (then `l = 0` and `l < r` is false, as
+    it is for `0 < 0` here); the recursion is at most `r - l + 1` deep -/
+def sortPartW (swp : α → α → Option (α × α)) (f : α → α → Bool) : Nat → Array α → Nat → Nat → Option (Array α)
+  | 0, a, l, r => if l < r then none else some a
+  | fuel + 1, a, l, r =>
+    if l < r then
+      (partitionW swp f a l r).bind fun p =>
+      (sortPartW swp f fuel p.1 l (p.2 - 1)).bind fun a2 => sortPartW swp f fuel a2 (p.2 + 1) r
+    else some a
+
+/-- `sort_by(self, f)` on the items of an Array -/
+def sortW (swp : α → α → Option (α × α)) (f : α → α → Bool) (items : List α) : Option (List α) :=
+  (sortPartW swp f (items.length + 1) items.toArray 0 (items.length - 1)).map Array.toList
+
+/-- `lt(a, b)`: `cmp(a, b) < 0` -/
+def scalarLt (addr : Nat → Bytes) (x y : Scalar) : Bool :=
+  match scalarCmp addr x y with
+  | some c => decide (c < 0)
+  | none => false
+
+/-- `sort(array)`: `none` = an element swap left no value of the model -/
+def arraySort (addr : Nat → Bytes) (items : List Scalar) : Option (List Scalar) := sortW swapScalars (scalarLt addr) items
 
 end Cello.Hash
